@@ -2,13 +2,14 @@
 
 For each of the seven block classes that own an item container: two (thorough: three) instance
 slots; operations: construct without items, construct with a *fresh* item list (where the
-constructor takes one), decode the same bytes, add / remove / edit an item in one slot; all
+constructor takes one), decode the same bytes, add / remove / relabel an item or write sample values in place in one slot (decodes contain an
+item that is missing in every frame); all
 interleavings by BFS to a depth bound, every state rebuilt by replay on fresh objects (never by
 copying: sharing is the subject).  Model: independent Python lists.  Oracle after every
 operation, for every slot: len / iteration / encoding == its own model list."""
 import numpy as np
 
-from .. import core, gen, ohist, specs
+from .. import core, editwalk, gen, ohist, specs
 from .. import tdfref as R
 
 PROP = "C20"
@@ -64,7 +65,7 @@ class Adapter:
         if t == R.T_OPT:
             return n.opt.OpticalSetupBlock()
         if t == R.T_EVENTS:
-            return n.ev.TemporalEventsData()
+            return n.ev.TemporalEventsData(start_time=0.125)
         if t == R.T_EMG:
             return n.emg.EMG(1000, NF, 0.25)
         if t == R.T_DATA3D:
@@ -163,8 +164,13 @@ class Adapter:
 
 
 class ShareMachine(ohist.Machine):
+    """Per-slot model = the full spec of what that slot must contain; the oracle compares each
+    slot's *encoding* (and its public length / iteration) with the reference encoding of its own
+    model, so any leak of items or sample values between instances is visible."""
+
     def __init__(self, t, nslots):
         self.a = Adapter(t)
+        self.t = t
         self.nslots = nslots
 
     def V(self, clause, detail, extra=""):
@@ -173,49 +179,117 @@ class ShareMachine(ohist.Machine):
     def initial(self):
         return [("start", lambda: ([None] * self.nslots, [None] * self.nslots))]
 
+    def _key(self, sp):
+        return next(k for k in ("tracks", "items", "channels", "events") if k in sp)
+
+    def _decode_spec(self):
+        """Two items; for the run-length coded kinds the second one is missing in every frame."""
+        sp = self.a.spec([10, 11])
+        if self.t in gen.RLE_TYPES:
+            k = self._key(sp)
+            it = sp[k][1]
+            d = it[1] if isinstance(it, tuple) else it
+            for f in editwalk.RLE_FIELDS[self.t]:
+                d[f][:] = np.nan
+        return sp
+
     def ops(self, model):
         out = []
-        used = sorted({i for m in model if m for i, _ in m})
-        nxt = (max(used) + 1) if used else 0
+        used = sorted({self._id(it) for m in model if m for it in m[self._key(m)]})
+        nxt = (max([u for u in used if u < 10] or [-1]) + 1)
         for s in range(self.nslots):
             out.append(("new", s))
             if self.a.has_ctor_list():
                 out.append(("new_with", s, nxt))
             out.append(("decode", s))
             if model[s] is not None:
-                if len(model[s]) < MAXITEMS:
+                n = len(model[s][self._key(model[s])])
+                if n < MAXITEMS:
                     out.append(("add", s, nxt))
-                if model[s]:
+                if n:
                     if self.a.can_remove():
                         out.append(("remove", s))
                     out.append(("edit", s))
+                    out.append(("poke", s))
         return out
+
+    def _id(self, it):
+        d = it[1] if isinstance(it, tuple) else it
+        lab = d.get("label", d.get("name"))
+        if lab is not None:
+            return int("".join(ch for ch in lab if ch.isdigit()) or 0)
+        return int(it[0]) if isinstance(it, tuple) else 0
 
     def describe(self, op):
         return f"{op[0]}[{op[1]}]" + (f"(item {op[2]})" if len(op) > 2 else "")
 
     def step(self, impl, model, op):
-        impl, model = list(impl), [None if m is None else list(m) for m in model]
+        import copy as _copy
+
+        impl, model = list(impl), [_copy.deepcopy(m) for m in model]
         kind, s = op[0], op[1]
+        a, t = self.a, self.t
         try:
             if kind == "new":
-                impl[s] = self.a.new()
-                model[s] = []
+                impl[s] = a.new()
+                model[s] = a.spec([])
             elif kind == "new_with":
-                impl[s] = self.a.new_with([op[2], op[2] + 1])
-                model[s] = [(op[2], 0), (op[2] + 1, 0)]
+                impl[s] = a.new_with([op[2], op[2] + 1])
+                model[s] = a.spec([op[2], op[2] + 1])
+                if t == R.T_PLATCAL:  # the constructor assigns the channels itself: adopt them, keep the items
+                    chans = [int(c) for c, _ in impl[s].platforms]
+                    if len(chans) != 2 or len(set(chans)) != 2:
+                        raise self.V("operation-effect-wrong", f"constructor-filled block has channels {chans}", "ctor")
+                    model[s]["items"] = [(c, it[1]) for c, it in zip(chans, model[s]["items"])]
             elif kind == "decode":
-                impl[s] = self.a.decode([10, 11])
-                model[s] = [(10, 0), (11, 0)]
+                sp = self._decode_spec()
+                impl[s] = specs.lib_decode(t, sp["format"], R.encode_block(sp))[0]
+                model[s] = sp
             elif kind == "add":
-                self.a.add(impl[s], op[2])
-                model[s].append((op[2], 0))
+                a.add(impl[s], op[2])
+                k = self._key(model[s])
+                model[s][k].append(a.spec([op[2]])[k][0])
             elif kind == "remove":
-                self.a.remove_first(impl[s])
-                del model[s][0]
-            elif kind == "edit":
-                self.a.edit_first(impl[s])
-                model[s][0] = (model[s][0][0], model[s][0][1] + 1)
+                a.remove_first(impl[s])
+                del model[s][self._key(model[s])][0]
+            elif kind == "edit":       # relabel the first item (platform data has no label: poke instead)
+                k = self._key(model[s])
+                it = model[s][k][0]
+                d = it[1] if isinstance(it, tuple) else it
+                lit = editwalk.lib_items(impl[s], t)[0]
+                if t == R.T_PLATDATA:
+                    d["torque"][0] = d["torque"][0] + 4096 if not np.isnan(d["torque"][0]) else np.float32(1.5)
+                    editwalk.poke(lit, "torque", 0, d["torque"][0])
+                    if np.isnan(d["ap"][0]).any():
+                        d["ap"][0] = 2.5
+                        d["force"][0] = 3.5
+                        editwalk.poke(lit, "application_point", 0, np.float32(2.5))
+                        editwalk.poke(lit, "force", 0, np.float32(3.5))
+                else:
+                    key_s, key_l = {R.T_OPT: ("name", "camera_name")}.get(t, ("label", "label"))
+                    d[key_s] = d[key_s] + "*"
+                    setattr(lit, key_l, getattr(lit, key_l) + "*")
+            elif kind == "poke":       # write sample values in place into the LAST item (fills frame 0)
+                k = self._key(model[s])
+                it = model[s][k][-1]
+                d = it[1] if isinstance(it, tuple) else it
+                lit = editwalk.lib_items(impl[s], t)[-1]
+                if t in gen.RLE_TYPES:
+                    for fs, fl in zip(editwalk.RLE_FIELDS[t], editwalk.LIB_FIELDS[t]):
+                        cur = np.asarray(d[fs])[0]
+                        val = np.float32(9.75) if np.isnan(cur).any() else np.float32(np.asarray(cur).reshape(-1)[0] + 16)
+                        d[fs][0] = val
+                        editwalk.poke(lit, fl, 0, val)
+                elif t == R.T_EVENTS:
+                    if len(d["values"]):
+                        d["values"][0] = d["values"][0] + 16
+                        editwalk.poke(lit, "values", 0, d["values"][0])
+                elif t == R.T_PLATCAL:
+                    d["size"][0] = d["size"][0] + 16
+                    editwalk.poke(lit, "size", 0, d["size"][0])
+                elif t == R.T_OPT:
+                    d["index"] = d["index"] + 16
+                    lit.logical_camera_index = lit.logical_camera_index + 16
         except core.Violation:
             raise
         except Exception as e:  # noqa: BLE001
@@ -227,41 +301,54 @@ class ShareMachine(ohist.Machine):
         for s, (b, m) in enumerate(zip(impl, model)):
             if b is None:
                 continue
-            want = [self.a.model_ident(i, e) for i, e in m]
+            want = R.encode_block(m)
+            nwant = len(m[self._key(m)])
             try:
-                got = [self.a.ident(it) for it in self.a.items(b)]
-                n = len(b) if hasattr(b, "__len__") else len(got)
                 enc = specs.lib_encode(b)
-                sp, used, _ = R.decode_block(self.a.t, self.a.spec([])["format"], enc)
+                n_iter = len(self.a.items(b))
+                n_len = len(b) if hasattr(b, "__len__") else n_iter
             except Exception as e:  # noqa: BLE001
                 raise self.V("slot-unusable", f"slot {s}: {type(e).__name__}: {e}")
-            k = next(k for k in ("tracks", "items", "channels", "events") if k in sp)
             touched = last is not None and last[1] == s
             site = "touched-slot" if touched else "other-slot"
-            if got != want or n != len(want):
-                clause = "fresh-instance-not-empty" if (touched and last[0] == "new") else "instance-changed-by-other"
-                if touched and last[0] not in ("new",):
+            if n_iter != nwant or n_len != nwant or enc != want:
+                if touched and last[0] == "new":
+                    clause = "fresh-instance-not-empty"
+                elif touched:
                     clause = "operation-effect-wrong"
-                raise self.V(clause, f"slot {s} holds {got} (len {n}), its own history says {want}; last op {self.describe(last) if last else None}", site)
-            if len(sp[k]) != len(want) or used != len(enc):
-                raise self.V("encoding-differs", f"slot {s} encodes {len(sp[k])} items, its own history says {len(want)}", site)
-
+                else:
+                    clause = "instance-changed-by-other"
+                what = f"{n_iter} items (len {n_len}), its own history says {nwant}" if (n_iter != nwant or n_len != nwant) else \
+                    "the right number of items but other content than its own history gave it"
+                raise self.V(clause, f"slot {s} holds {what}; last op {self.describe(last) if last else None}", site)
         # probe: whatever was done so far, an instance constructed without items starts empty
         try:
             probe = self.a.new()
-            leftover = [self.a.ident(it) for it in self.a.items(probe)]
+            leftover = len(self.a.items(probe))
         except Exception as e:  # noqa: BLE001
             raise self.V("slot-unusable", f"fresh instance: {type(e).__name__}: {e}")
         if leftover:
             raise self.V("fresh-instance-not-empty", f"after {[self.describe(o) for o in hist]} a block constructed without items "
-                                                     f"already holds {leftover}", "probe")
+                                                     f"already holds {leftover} item(s)", "probe")
+        # probe: decoding the reference bytes again still yields exactly their content
+        sp = self._decode_spec()
+        ref = R.encode_block(sp)
+        try:
+            again = specs.lib_encode(specs.lib_decode(self.t, sp["format"], ref)[0])
+        except Exception as e:  # noqa: BLE001
+            raise self.V("slot-unusable", f"fresh decode: {type(e).__name__}: {e}")
+        if again != ref:
+            raise self.V("decode-affected-by-earlier-instance", f"after {[self.describe(o) for o in hist]} decoding the same bytes "
+                                                                f"no longer yields their content", "probe")
 
     def canon(self, impl, model):
-        return tuple(None if m is None else tuple(m) for m in model)
+        import hashlib
+
+        return tuple(None if m is None else hashlib.sha1(R.encode_block(m)).hexdigest() for m in model)
 
     def nontrivial(self, model):
-        live = [m for m in model if m is not None]
-        return len(live) >= 2 and any(a != b for a in live for b in live)
+        live = [R.encode_block(m) for m in model if m is not None]
+        return len(live) >= 2 and len(set(live)) >= 2
 
 
 TYPES = (R.T_OPT, R.T_EVENTS, R.T_EMG, R.T_DATA3D, R.T_FORCE3D, R.T_PLATCAL, R.T_PLATDATA)
